@@ -1,7 +1,7 @@
 (* C04 - every reported range lies in the document and covers what it names (token level).
-   Placeholder statements until Proofs/LexerRange*.v lands; the refutations are by vm_compute on the model. *)
+   Only statements closed by `exact` + Print Assumptions live here (and vm_compute witnesses of the refutations). *)
 From Coq Require Import List NArith ZArith Bool.
-From LH Require Import Base.Bytes Base.Res Base.Utf8 Model.Lexer Spec.LspRange.
+From LH Require Import Base.Bytes Base.Res Base.Utf8 Model.Lexer Spec.LspRange Proofs.LexerRangeMain.
 Import ListNotations.
 Local Open Scope N_scope.
 
@@ -12,6 +12,17 @@ Definition lexed_covered (cps : list N) : bool :=
 Definition C04_tok_range_full : Prop :=
   forall gbk cps ts, forallb scalar cps = true -> lex_all gbk (utf8_of cps) = Ok ts -> cls_lexerr ts = false ->
     all_tokens_covered cps ts = true.
+
+(* proved: for every valid-UTF-8 file without backslash, long-bracket opener, astral or 2-byte character, LF-CR pair or
+   leading BOM that lexes without lexical error, every token whose recorded text is its source text is reported with
+   a range that lies inside the document, has start <= end, and covers exactly the token text (LSP reading: UTF-16
+   columns; LF, CRLF, CR line ends) - for any GBK oracle *)
+Theorem C04_tok_range_exact : forall gbk cps ts,
+  forallb scalar cps = true -> file_class_ok cps = true ->
+  lex_all gbk (utf8_of cps) = Ok ts -> cls_lexerr ts = false ->
+  all_tokens_covered cps ts = true.
+Proof. exact tok_range_exact. Qed.
+Print Assumptions C04_tok_range_exact.
 
 (* local s = "a\nb" local y  : the token after a string with an escape is reported one column too far left *)
 Theorem C04_escape_shift_refuted :
@@ -40,6 +51,13 @@ Theorem C04_lfcr_refuted :
   forallb scalar cps = true /\ cls_lfcr cps = true /\ lexed_covered cps = false.
 Proof. repeat split; vm_compute; reflexivity. Qed.
 Print Assumptions C04_lfcr_refuted.
+
+(* <BOM>x = 1 : the byte-order mark is stripped without advancing the position *)
+Theorem C04_bom_refuted :
+  let cps := [65279;120;32;61;32;49] in
+  forallb scalar cps = true /\ cls_bom cps = true /\ lexed_covered cps = false.
+Proof. repeat split; vm_compute; reflexivity. Qed.
+Print Assumptions C04_bom_refuted.
 
 (* non-vacuity of the guard: CRLF + CJK string + trailing comment, all tokens covered *)
 Example C04_guard_inhabited :
